@@ -392,6 +392,13 @@ def mk_idx(base: Term, i: Term) -> Term:
     if base[0] in ("tuple", "list") and i[0] == "c" and isinstance(i[1], int) and -len(base[1]) <= i[1] < len(base[1]) \
             and not any(x[0] == "star" for x in base[1]):
         return base[1][i[1]]
+    if base[0] == "comp" and base[1] in ("list", "tuple") and len(base[3]) == 1 and not base[3][0][1] \
+            and base[3][0][0][0] in ("tuple", "list") and i[0] == "c" and isinstance(i[1], int) and not isinstance(i[1], bool) \
+            and -len(base[3][0][0][1]) <= i[1] < len(base[3][0][0][1]) and not any(x[0] == "star" for x in base[3][0][0][1]):
+        # [f(k) for k in (a, b)][1] == f(b): a comprehension over a display, indexed by a constant
+        bvs = {x for x in subterms(base[2]) if x[0] == "bv"}
+        if len(bvs) <= 1:
+            return substitute(base[2], {b: base[3][0][0][1][i[1]] for b in bvs})
     if base[0] == "slice" and base[3] == NONE and base[4] == NONE and is_num_const(i) and isinstance(i[1], int) and i[1] >= 0:
         lo = base[2]
         if lo == NONE:
@@ -627,6 +634,10 @@ def _unit_propagate(facts: Dict[Term, bool]):
             px, pol = positive(as_bool(open_[0]))
             want = (not need) if pol else need
             if px not in facts:
+                pc2, pol2 = positive(as_bool(px))
+                if pc2 in facts:
+                    continue                 # already recorded under its normal form (the key add_fact would use)
+                facts[px] = want             # recorded first: add_fact may file the fact under another normal form of the same term
                 add_fact(facts, px, want)
 
 
